@@ -460,6 +460,12 @@ func liveScenarios(typ string) []liveScenario {
 					panosRuleXML("r1", "NET_10.1.2.0_24", "IP_10.1.1.1")+panosRuleXML("r2", "NET_10.1.2.0_24", "IP_10.1.1.9"), a2, false)}},
 			{"delete-all", "panos", map[string]string{"rules": panosRuleXML("r1", "IP_10.1.1.1", "NET_10.1.2.0_24"), "addrs": a},
 				map[string]string{"router": panosSpoc(panosRuleXML("r7", "NET_10.1.2.0_24", "IP_10.1.1.9"), a2)}},
+			// Two vsys, nothing to change in the first one (the one that
+			// loses its marker in the interlock variants), changes in the second.
+			{"two-vsys-second-differs", "panos", map[string]string{"raw": panosTwoVsys("@HOSTNAME@", panosRuleXML("r1", "IP_10.1.1.1", "NET_10.1.2.0_24"), a,
+				panosRuleXML("r1", "NET_10.1.2.0_24", "IP_10.1.1.1"), a, true)},
+				map[string]string{"router": panosTwoVsys("", panosRuleXML("r1", "IP_10.1.1.1", "NET_10.1.2.0_24"), a,
+					panosRuleXML("r1", "NET_10.1.2.0_24", "IP_10.1.1.1")+panosRuleXML("r2", "NET_10.1.2.0_24", "IP_10.1.1.9"), a2, false)}},
 		}
 	case "nsx":
 		grp := func(id string, addrs ...string) string {
